@@ -1031,7 +1031,10 @@ static int _yr_scan_verify_literal_match(
 
 #ifdef YARA_VERIF
 // Verification hook: reports every candidate handed over by the automaton.
-void (*yr_verif_on_candidate)(uint32_t string_idx, uint64_t offset) = NULL;
+void (*yr_verif_on_candidate)(
+    uint32_t string_idx,
+    uint64_t offset,
+    uint32_t backtrack) = NULL;
 #endif
 
 int yr_scan_verify_match(
@@ -1059,7 +1062,7 @@ int yr_scan_verify_match(
 
 #ifdef YARA_VERIF
   if (yr_verif_on_candidate != NULL)
-    yr_verif_on_candidate(string->idx, data_base + offset);
+    yr_verif_on_candidate(string->idx, data_base + offset, ac_match->backtrack);
 #endif
 
   if (data_size - offset <= 0)
